@@ -107,7 +107,7 @@ func TestWindowReference(t *testing.T) {
 		var evs model.Events
 		B := uint64(bl)
 		I := uint64(iv)
-		boundaryRead, gapRead := false, false
+		boundaryRead, gapRead, earlyPrevRead := false, false, false
 		steps := rapid.IntRange(1, 25).Draw(t, "steps")
 		for i := 0; i < steps; i++ {
 			dt := drawStep(t, c, now, bl, iv)
@@ -198,6 +198,16 @@ func TestWindowReference(t *testing.T) {
 								t.Fatalf("t=%d view(%d,%d).GetPreviousQPS(%d)=%v, reference %v", now, v.vs, v.vi, k, got, want)
 							}
 						}
+					}})
+				}
+				if L+vb <= I && now <= vb {
+					// within one view bucket of time zero the "previous window" does not exist: the value of the read is not
+					// asserted, but the read is made — it must have no effect on what later reads report
+					rs = append(rs, reader{fmt.Sprintf("view(%d,%d).prevQPS(unasserted)", v.vs, v.vi), func() {
+						for k := 0; k < 4; k++ {
+							_ = v.m.GetPreviousQPS(base.MetricEvent(k))
+						}
+						earlyPrevRead = true
 					}})
 				}
 				rs = append(rs, reader{fmt.Sprintf("view(%d,%d).rt/conc/max", v.vs, v.vi), func() {
@@ -311,6 +321,7 @@ func TestWindowReference(t *testing.T) {
 			c.Count("getter_comparisons", int64(len(rs)))
 		}
 		c.ClassIf(boundaryRead, "read-on-bucket-boundary")
+		c.ClassIf(earlyPrevRead, "previous-window-read-within-one-bucket-of-time-zero(unasserted)")
 		if gapRead || boundaryRead || nearZero {
 			c.NonTrivial()
 		}
